@@ -29,6 +29,7 @@ func (r *rw) scalarReplace(pk *packages.Package, file *ast.File) {
 		named  *types.Named
 		ptr    bool
 		stmt   ast.Stmt          // the defining statement (in a statement list)
+		decl   ast.Stmt          // `var c *T` when the record is created by a later assignment (stmt); else nil
 		lit    *ast.CompositeLit // nil: zero value
 		alias  []*types.Var
 		name   string
@@ -56,6 +57,7 @@ func (r *rw) scalarReplace(pk *packages.Package, file *ast.File) {
 	}
 	var cands []*cand
 	byVar := map[*types.Var]*cand{}
+	late := map[*ast.AssignStmt]bool{} // the creating assignments of late-defined records
 	inList := func(parent ast.Node, s ast.Stmt) bool {
 		switch b := parent.(type) {
 		case *ast.BlockStmt:
@@ -142,7 +144,40 @@ func (r *rw) scalarReplace(pk *packages.Package, file *ast.File) {
 				c.lit = cl
 			}
 		} else if ptr {
-			return true // var c *T: nil
+			// var c *T — a result temporary of the inliner: created by the one assignment `c = &T{…}` made later
+			var as []*ast.AssignStmt
+			var parents []ast.Node
+			var st2 []ast.Node
+			ast.Inspect(file, func(m ast.Node) bool {
+				if m == nil {
+					st2 = st2[:len(st2)-1]
+					return true
+				}
+				st2 = append(st2, m)
+				if a, ok := m.(*ast.AssignStmt); ok && a.Tok == token.ASSIGN {
+					for _, l := range a.Lhs {
+						if lid, ok := ast.Unparen(l).(*ast.Ident); ok && info.Uses[lid] == types.Object(v) {
+							as = append(as, a)
+							parents = append(parents, st2[len(st2)-2])
+						}
+					}
+				}
+				return true
+			})
+			if len(as) != 1 || len(as[0].Lhs) != 1 || len(as[0].Rhs) != 1 || !inList(parents[0], as[0]) {
+				return true
+			}
+			e := ast.Unparen(as[0].Rhs[0])
+			u, ok := e.(*ast.UnaryExpr)
+			if !ok || u.Op != token.AND {
+				return true
+			}
+			cl, ok := ast.Unparen(u.X).(*ast.CompositeLit)
+			if !ok {
+				return true
+			}
+			c.lit, c.decl, c.stmt = cl, stmt, as[0]
+			late[as[0]] = true
 		}
 		cands = append(cands, c)
 		byVar[v] = c
@@ -160,6 +195,8 @@ func (r *rw) scalarReplace(pk *packages.Package, file *ast.File) {
 		idx   int
 		blank *ast.AssignStmt
 		bidx  int
+		whole ast.Stmt   // `p := c`: the statement to delete (spec == nil then)
+		src   *ast.Ident // and the mention of the source in it
 	}
 	aliases := map[*types.Var]*aliasDef{}
 	addrOf := map[*ast.Ident]bool{}  // `&rec` inside an alias definition
@@ -233,6 +270,50 @@ func (r *rw) scalarReplace(pk *packages.Package, file *ast.File) {
 		}
 		return true
 	})
+	// `p := c` / `var p = c`: the record (or an alias of it) under another name
+	{
+		var stack2 []ast.Node
+		ast.Inspect(file, func(n ast.Node) bool {
+			if n == nil {
+				stack2 = stack2[:len(stack2)-1]
+				return true
+			}
+			stack2 = append(stack2, n)
+			var id *ast.Ident
+			var val ast.Expr
+			var stmt ast.Stmt
+			switch x := n.(type) {
+			case *ast.AssignStmt:
+				if x.Tok == token.DEFINE && len(x.Lhs) == 1 && len(x.Rhs) == 1 {
+					id, _ = x.Lhs[0].(*ast.Ident)
+					val, stmt = x.Rhs[0], x
+				}
+			case *ast.DeclStmt:
+				if gd, ok := x.Decl.(*ast.GenDecl); ok && gd.Tok == token.VAR && len(gd.Specs) == 1 {
+					if vs := gd.Specs[0].(*ast.ValueSpec); len(vs.Names) == 1 && len(vs.Values) == 1 && vs.Type == nil {
+						id, val, stmt = vs.Names[0], vs.Values[0], x
+					}
+				}
+			}
+			if id == nil || id.Name == "_" || len(stack2) < 2 || !inList(stack2[len(stack2)-2], stmt) {
+				return true
+			}
+			av, _ := info.Defs[id].(*types.Var)
+			sid, ok := ast.Unparen(val).(*ast.Ident)
+			if av == nil || !ok {
+				return true
+			}
+			src, _ := info.Uses[sid].(*types.Var)
+			if src == nil || !types.Identical(src.Type(), av.Type()) || aliases[av] != nil {
+				return true
+			}
+			if _, isPtr := types.Unalias(av.Type()).(*types.Pointer); !isPtr {
+				return true
+			}
+			aliases[av] = &aliasDef{v: av, of: src, whole: stmt, src: sid}
+			return true
+		})
+	}
 	root := func(v *types.Var) *cand {
 		for i := 0; i < 4 && v != nil; i++ {
 			if c := byVar[v]; c != nil {
@@ -263,6 +344,10 @@ func (r *rw) scalarReplace(pk *packages.Package, file *ast.File) {
 			bad[c] = "aliased by value"
 		}
 		c.alias = append(c.alias, av)
+		if a.spec == nil {
+			accounted[a.src] = true
+			continue
+		}
 		ast.Inspect(a.spec.Values[a.idx], func(n ast.Node) bool {
 			if id, ok := n.(*ast.Ident); ok {
 				accounted[id] = true
@@ -270,6 +355,15 @@ func (r *rw) scalarReplace(pk *packages.Package, file *ast.File) {
 			return true
 		})
 		accounted[a.blank.Rhs[a.bidx].(*ast.Ident)] = true
+	}
+	for _, c := range cands {
+		if c.decl != nil {
+			if as, ok := c.stmt.(*ast.AssignStmt); ok {
+				if id, ok := ast.Unparen(as.Lhs[0]).(*ast.Ident); ok {
+					accounted[id] = true
+				}
+			}
+		}
 	}
 	selX := map[*ast.Ident]*ast.SelectorExpr{}
 	ast.Inspect(file, func(n ast.Node) bool {
@@ -306,7 +400,7 @@ func (r *rw) scalarReplace(pk *packages.Package, file *ast.File) {
 	}
 	for _, c := range cands {
 		if bad[c] == "" {
-			if why := mutatedInExcept(info, enclosingFunc(file, c.stmt.Pos()), c.v, addrOf); why != "" {
+			if why := mutatedInExcept(info, enclosingFunc(file, c.stmt.Pos()), c.v, addrOf, late); why != "" {
 				bad[c] = why
 			}
 		}
@@ -320,6 +414,9 @@ func (r *rw) scalarReplace(pk *packages.Package, file *ast.File) {
 		// at most one alias per parameter block and round (the deletions must not overlap)
 		seen := map[*ast.ValueSpec]bool{}
 		for _, av := range c.alias {
+			if aliases[av].spec == nil {
+				continue
+			}
 			if seen[aliases[av].spec] {
 				bad[c] = "two aliases in one block"
 			}
@@ -358,6 +455,12 @@ func (r *rw) scalarReplace(pk *packages.Package, file *ast.File) {
 			name := fmt.Sprintf("rec%d_%d_%s_%s", r.round, r.site, c.name, f.Name())
 			c.fields[f.Name()] = name
 			fmt.Fprintf(&b, "var %s %s\n_ = %s\n", name, ts, name)
+		}
+		declText := ""
+		if c.decl != nil {
+			// the variables are declared where the record's variable was, and filled where the record was created
+			declText = b.String() + fmt.Sprintf("//line %s:%d\n", callerFile, r.p.Fset.PositionFor(c.decl.End(), false).Line)
+			b.Reset()
 		}
 		if !okTypes {
 			r.skipped = append(r.skipped, fmt.Sprintf("round %d: record %s at %s kept: a field type cannot be written here", r.round, c.name, r.p.Pos(c.stmt.Pos())))
@@ -410,8 +513,15 @@ func (r *rw) scalarReplace(pk *packages.Package, file *ast.File) {
 		}
 		fmt.Fprintf(&b, "//line %s:%d\n", callerFile, r.p.Fset.PositionFor(c.stmt.End(), false).Line)
 		fe.edits = append(fe.edits, edit{r.off(c.stmt.Pos()), r.off(c.stmt.End()), "\n" + b.String()})
+		if c.decl != nil {
+			fe.edits = append(fe.edits, edit{r.off(c.decl.Pos()), r.off(c.decl.End()), "\n" + declText})
+		}
 		for _, av := range c.alias {
 			a := aliases[av]
+			if a.spec == nil {
+				fe.edits = append(fe.edits, edit{r.off(a.whole.Pos()), r.off(a.whole.End()), ""})
+				continue
+			}
 			var names, vals, ls, rs []ast.Node
 			for k := range a.spec.Names {
 				names = append(names, a.spec.Names[k])
@@ -557,7 +667,7 @@ func (r *rw) foldConstIfs(pk *packages.Package, file *ast.File) {
 }
 
 // mutatedInExcept: mutatedIn, not counting the address-of occurrences listed in except.
-func mutatedInExcept(info *types.Info, n ast.Node, v *types.Var, except map[*ast.Ident]bool) string {
+func mutatedInExcept(info *types.Info, n ast.Node, v *types.Var, except map[*ast.Ident]bool, late map[*ast.AssignStmt]bool) string {
 	if n == nil {
 		return "not inside a function"
 	}
@@ -573,7 +683,7 @@ func mutatedInExcept(info *types.Info, n ast.Node, v *types.Var, except map[*ast
 		switch x := n.(type) {
 		case *ast.AssignStmt:
 			for _, l := range x.Lhs {
-				if isV(l) != nil {
+				if isV(l) != nil && !late[x] {
 					why = "the variable is reassigned"
 				}
 			}
